@@ -19,6 +19,7 @@ from props import exec_common as X
 from props import C10 as TEN
 
 ID = 'C17'
+CASE_TIMEOUT = 120   # per-case wall-clock limit of the driver's hang detection (scripted drivers; thorough live runs are in extra_checks)
 COQ_TARGETS = ['theories/Props/C17.vo', 'theories/Exec/ModesCases.vo', 'theories/Exec/FdTableCases.vo']
 IMPORTS = ('From PM Require Import Lib.Bytes Lib.ZDict Exec.Threadless Exec.ThreadlessOld Exec.ThreadlessCases Exec.Modes Exec.ModesCases Exec.FdTable Exec.FdTableCases.\n'
            'From Coq Require Import ZArith.')
